@@ -393,6 +393,9 @@ def execute(spec, vals, sym, hooks=None):
 
                 tb = traceback.extract_tb(e.__traceback__)[-1]
                 rec['crash'] = f'AssertionError at {os.path.basename(tb.filename)}:{tb.lineno}: {tb.line}'
+            except ValueError as e:
+                # torch.distributions argument validation (on by default, never switched off by torchtree)
+                rec['crash'] = f'ValueError {str(e).splitlines()[0][:200]}'
         for it, ev in enumerate(rec['iters']):
             ev['u'] = st.u.get(it)
         rec['rows'] = [[scalar_of(c, sym) for c in row] for row in container]
@@ -727,9 +730,8 @@ def build_goals(run, spec):
                 G(tag + lab, node, f'{opname}._step:hastings-ratio', hyps=hg['dom'], key='abs')
             G(tag + 'Hastings term == log q(x|x\') - log q(x\'|x) of the executed proposal', hg['goal'],
               f'{opname}._step:hastings-ratio', hyps=hg['dom'] + hg['goal_hyps'] + [n for _, n in hg['lemmas']], key='abs')
-            if hg['instance']:
-                G(tag + 'the coordinate scaled by the operator is non-zero', d.and_(*hg['instance']),
-                  f'{opname}._step:degenerate-state')
+            # a zero coordinate is a fixed point of the scale move (no density): excluded from the domain
+            run.dom = run.dom + list(hg['instance'])
         T0 = fresh_eval(kind, ev['before'])
         T1 = fresh_eval(kind, ev['after'])
         if ev['joint'] is None or ev['joint'][0] == 'nonfinite' or ev['h'] == 'nonfinite':
@@ -969,20 +971,26 @@ def chain_task(task, tr):
             tr.inconc(f'{label}: harness: {rec["stub_error"]}')
             continue
         if rec['crash']:
-            if 'ZeroDivisionError' in rec['crash'] and 'op._accept' in rec['crash']:
+            final = 'ZeroDivisionError' in rec['crash'] and 'op._accept' in rec['crash']
+            if final:
                 sig = 'MCMC.run:final-summary-divides-by-zero-when-an-operator-was-never-selected'
+                what = 'MCMC.run raises after the last iteration (loggers already closed)'
+            elif rec['crash'].startswith('ValueError') and 'support' in rec['crash']:
+                sig = 'MCMC.run:raises-ValueError-when-a-proposal-leaves-the-support-of-a-validated-prior'
+                what = ('MCMC.run aborts instead of rejecting a proposal outside the support of a torch.distributions prior '
+                        '(density 0 => the move must be rejected and the parameters restored)')
             else:
                 sig = 'MCMC.run:raises-' + rec['crash'].split(' ')[0]
+                what = 'MCMC.run raises'
             if sig not in reported:
                 reported.add(sig)
-                ok, detail = replay_chain(spec, run.W)
+                ok, detail = replay_chain(spec, run.W, focus='crash')
                 if ok:
-                    tr.violation(sig, f'{label}: MCMC.run raises after the last iteration: {detail}',
-                                 {'kind': 'chain', 'spec': spec, 'values': run.W})
+                    tr.violation(sig, f'{label}: {what}: {detail}', {'kind': 'chain', 'spec': spec, 'values': run.W})
                 else:
                     tr.inconc(f'{label}: symbolic run crashed ({rec["crash"]}) but the concrete replay did not: {detail}')
-            if rec['crash'].startswith('AssertionError'):
-                continue
+            if not final:
+                continue  # the run was aborted in the middle of an iteration: nothing further to check on this path
         with tracing(run.t):
             goals = build_goals(run, spec)
             wd = well_defined(run)
@@ -1101,7 +1109,9 @@ def replay_chain(spec, vals, focus=None, hooks=None):
     except Exception as e:
         return True, f'real code raised {type(e).__name__}: {e}'
     if rec['crash']:
-        return True, rec['crash']
+        if focus == 'crash' or not rec['crash'].startswith('ValueError'):
+            return True, rec['crash']
+        return False, 'the real run raised ' + rec['crash'] + ' (reported separately)'
     tol = 1e-7
 
     def close(a, b):
@@ -1122,6 +1132,8 @@ def replay_chain(spec, vals, focus=None, hooks=None):
         prop = ev['after']
         ch = [(n, j) for n in state for j in range(len(state[n])) if state[n][j] != prop[n][j]]
         if okind in ('scaler', 'slide'):
+            if okind == 'scaler' and not ch and any(v == 0 for n in state for v in state[n]):
+                return False, 'a zero coordinate was scaled (outside the domain)'
             if len(ch) != 1:
                 return True, f'iteration {it + 1}: the move changed coordinates {ch}'
             n, j = ch[0]
@@ -1622,6 +1634,7 @@ def tasks_for(tier):
                chain('normal', [(sc, ['x'])], [(0, 0, 0)]),
                chain('gamma', [(sc, ['r', 'x'])], [(0, 0, 0)]),
                chain('gamma', [(sl, ['r', 'x'])], [(0, 1, 0)]),
+               chain('gamma', [(sl, ['r'])], [(0, 0, 0)]),
                chain('cat', [(sc, ['p']), (sl, ['q'])], [(0, 0, 0), (1, 0, 0)]),
                chain('exptr', [(sl, ['z'])], [(0, 0, 1), (0, 0, 1)]),
                chain('ufsimplex', [(di, ['x'])], [(0, 0, 0)]),
@@ -1651,8 +1664,8 @@ def tasks_for(tier):
                     ts.append(chain(target, [(sc, [a]), (sl, [b])], [(s, 0, 0) for s in seq]))
         for k in (sc, sl, di, 'gmrf', 'hmc', 'adaptive', 'dual'):
             for c in (0, 3, 'sym'):
-                if k == 'dual' and c == 'sym':
-                    continue
+                if k in ('dual', 'adaptive') and c == 'sym':
+                    continue  # their counters are compared with the integer / infinite start / end bounds
                 ts.append({'kind': 'tune', 'op': k, 'count': c})
         for so_far, acc in ((9, True), (2, False), (7, True)):
             ts.append({'kind': 'tune', 'op': 'adaptive-rate', 'count': 9, 'accepted_so_far': so_far, 'accepted': acc})
@@ -1675,6 +1688,7 @@ def body(chk):
         'operator and coordinate selection probabilities do not depend on the state (Categorical over fixed weights, uniform randint): '
         'they cancel in the Hastings ratio and are not part of the obligations',
         'adaptation is treated as fixed during one transition (diminishing adaptation is not examined)',
+        'ScalerOperator is applied to non-zero coordinates (0 is a fixed point of the scale move: no proposal density there)',
         'HMCOperator proposals (leapfrog reversibility / volume preservation / kinetic-energy Hastings term) are the subject of C16 and are not repeated here',
         'GMRFPiecewiseCoalescentBlockUpdatingOperator._step (Newton iteration with data-dependent stopping, Cholesky, triangular solves) '
         'is OUTSIDE the claim: only its tuning re-parameterisation and accept/reject/restore wiring are checked',
